@@ -19,8 +19,12 @@ code -> spec: seeded random histories generated here on the same rig.
 Observed per step: the world read back from disk, "regenerated?" (EbuildProcessor.get_keys wrapped),
 the metadata returned, the cache entry read back from the cache file.  Judged by CacheValidity_Trace.
 
-Every Read builds fresh repository / eclass_cache / cache objects (= a new pkgcore session: the
-in-memory eclass listing and LazilyHashedPath values are per-session by design).
+Every Read is one pkgcore session: fresh repository / eclass_cache / cache objects (the in-memory eclass
+listing and LazilyHashedPath values are per-session by design).  The world has one or two packages sharing
+the eclass files; a session reads one of them or BOTH, in either order, through the same objects (one Read
+event per package; the criterion is per entry, so e.g. a stale entry must be refused also right after a
+fresh entry naming the same eclass was accepted).  All stamped mtimes carry sub-second parts (os.utime ns=):
+the mtime the caches record - and the spec's mtime - is the whole second.
 Carve-outs: an entry recording eclasses but lacking INHERIT ("StripInherit", old cache format) may be
 used or regenerated (the property's criterion says valid, pkgcore documents a refresh); result and
 stored entry are still judged.  mtime validation cannot see an edit that keeps the mtime: the driver
@@ -46,8 +50,23 @@ def cont(cid, inh="", nest=False):
     return dict(cid=cid, inh=inh, nest=bool(nest))
 
 
+PKGS = {"p1": "pkg", "p2": "pkg2"}          # spec package name -> cat/<name>-1
+ORDERS = {"p1": ["p1"], "p2": ["p2"], "p1p2": ["p1", "p2"], "p2p1": ["p2", "p1"]}
+NOPKG = dict(cid=0, inh="", mt=0)
+# sub-second parts of the stamped mtimes: the caches record whole seconds (floor), which is what the
+# spec's mtime stands for; the files themselves carry whatever the filesystem gives
+FRACS = [500_000_000, 999_999_999, 0, 1, 250_000_000, 123_456_789]
+ABSENT_ENTRY = dict(present=False, chf=dict(c=NOCONTENT, t=0), ecl=[], hasInherit=False, data=dict(eb=NOCONTENT, ecl=[]))
+
+
+def ebs_of(w0):
+    """initial worlds come as {ebs:{p1,p2}} (two packages) or, in old replay files, {eb}"""
+    ebs = dict(w0["ebs"]) if "ebs" in w0 else {"p1": w0["eb"]}
+    return {p: ebs.get(p, NOPKG) for p in PKGS}
+
+
 class Rig:
-    """overlay 'o' (holds cat/pkg-1) stacked on master 'm', one cache backend of the given kind."""
+    """overlay 'o' (holds cat/pkg-1 and, optionally, cat/pkg2-1) stacked on master 'm', one cache backend."""
 
     _n = 0
 
@@ -68,27 +87,28 @@ class Rig:
     def ecl_path(self, r, n):
         return pjoin(self.er[r].path, "eclass", f"{n}.eclass")
 
-    def ebuild_path(self):
-        return pjoin(self.er["o"].path, "cat", "pkg", "pkg-1.ebuild")
+    def ebuild_path(self, p="p1"):
+        return pjoin(self.er["o"].path, "cat", PKGS[p], f"{PKGS[p]}-1.ebuild")
 
-    def cache_path(self):
+    def cache_path(self, p="p1"):
         if self.kind == "md5":
-            return pjoin(self.er["o"].path, "metadata", "md5-cache", "cat", "pkg-1")
-        return pjoin(self.flatdir, "cat", "pkg-1")
+            return pjoin(self.er["o"].path, "metadata", "md5-cache", "cat", f"{PKGS[p]}-1")
+        return pjoin(self.flatdir, "cat", f"{PKGS[p]}-1")
 
     def _stamp(self, path, mt):
-        os.utime(path, (BASE + mt, BASE + mt))
+        ns = (BASE + mt) * 1_000_000_000 + FRACS[mt % len(FRACS)]
+        os.utime(path, ns=(ns, ns))
 
     def _remember(self, path, content):
         with open(path, "rb") as f:
             self.md5[hashlib.md5(f.read()).hexdigest()] = content
 
-    def write_ebuild(self, cid, inh, mt):
+    def write_ebuild(self, p, cid, inh, mt):
         names = INH[inh]
-        p = self.er["o"].create_ebuild("cat/pkg-1", eapi="8", license="", description=f"eb_{cid}_{inh or 'none'}",
-                                       data=("inherit " + " ".join(names)) if names else None)
-        self._remember(p, cont(cid, inh))
-        self._stamp(p, mt)
+        path = self.er["o"].create_ebuild(f"cat/{PKGS[p]}-1", eapi="8", license="", description=f"eb_{cid}_{inh or 'none'}",
+                                          data=("inherit " + " ".join(names)) if names else None)
+        self._remember(path, cont(cid, inh))
+        self._stamp(path, mt)
 
     def write_eclass(self, r, n, cid, nest, mt):
         p = self.ecl_path(r, n)
@@ -102,20 +122,26 @@ class Rig:
         return self.clock
 
     def setup(self, w0):
-        self.write_ebuild(w0["eb"]["cid"], w0["eb"]["inh"], 0)
+        for p, eb in ebs_of(w0).items():
+            if eb["cid"]:
+                self.write_ebuild(p, eb["cid"], eb["inh"], 0)
         for r in ("m", "o"):
             for n in ("a", "b"):
                 f = w0["ecl"][r][n]
                 if f["cid"]:
                     self.write_eclass(r, n, f["cid"], f["nest"], 0)
 
+    def pkgs(self):
+        return [p for p in PKGS if os.path.exists(self.ebuild_path(p))]
+
     # ---- actions (inputs chosen by TLC or by the random generator) ---------------------------
     def apply(self, a):
+        """edits only; Read sessions go through session()"""
         ev = a["ev"]
         if ev == "EditEbuild":
-            self.write_ebuild(a["cid"], a["inh"], self.tick())
+            self.write_ebuild(a["pkg"], a["cid"], a["inh"], self.tick())
         elif ev == "TouchEbuild":
-            self._stamp(self.ebuild_path(), self.tick())
+            self._stamp(self.ebuild_path(a["pkg"]), self.tick())
         elif ev == "EditEclass":
             self.write_eclass(a["r"], a["n"], a["cid"], a["nest"], self.tick())
         elif ev == "TouchEclass":
@@ -125,19 +151,18 @@ class Rig:
         elif ev == "MoveEclass":
             os.rename(self.ecl_path(a["r"], a["n"]), self.ecl_path(a["r2"], a["n"]))
         elif ev == "StripInherit":
-            p = self.cache_path()
+            p = self.cache_path(a["pkg"])
             with open(p) as f:
                 lines = [x for x in f if not x.startswith("INHERIT=")]
             with open(p, "w") as f:
                 f.writelines(lines)
-        elif ev == "Read":
-            return self.read()
         else:
             raise tlc.MachineryError(f"unknown action {a}")
-        return None
 
     # ---- the operation under test -------------------------------------------------------------
-    def read(self):
+    def session(self, order):
+        """One pkgcore session: ONE set of repository / eclass-cache / cache objects serves every package of
+        `order`; yields (package, outcome) after each package's metadata has been fetched."""
         from pkgcore.cache import flat_hash
         from pkgcore.ebuild import eclass_cache as ecm
         from pkgcore.ebuild import repo_objs, repository
@@ -150,27 +175,33 @@ class Rig:
         cache = flat_hash.md5_cache(opath) if self.kind == "md5" else flat_hash.database(self.flatdir)
         repo = repository.UnconfiguredTree(opath, eclass_cache=ec, masters=(master,), cache=(cache,),
                                            repo_config=repo_objs.RepoConfig(location=opath))
-        del self.calls[:]
-        out = dict(regen=False, failed=False, err="", result=dict(eb=NOCONTENT, ecl=[]))
-        try:
-            pkg = repo.package_class("cat", "pkg", "1")
-            data = dict(pkg.data)
-            out["result"] = project_data(data.get("DESCRIPTION", ""), data.get("IUSE", ""))
-        except Exception as e:
-            out["failed"] = True
-            out["err"] = f"{type(e).__name__}: {e}"[:300]
-        out["regen"] = bool(self.calls)
-        return out
+        for p in order:
+            del self.calls[:]
+            out = dict(regen=False, failed=False, err="", result=dict(eb=NOCONTENT, ecl=[]))
+            try:
+                pkg = repo.package_class("cat", PKGS[p], "1")
+                data = dict(pkg.data)
+                out["result"] = project_data(data.get("DESCRIPTION", ""), data.get("IUSE", ""))
+            except Exception as e:
+                out["failed"] = True
+                out["err"] = f"{type(e).__name__}: {e}"[:300]
+            out["regen"] = bool(self.calls)
+            yield p, out
 
     # ---- projections --------------------------------------------------------------------------
     def world(self):
         def mt(p):
-            return int(os.stat(p).st_mtime) - BASE if self.kind == "flat" else 0
+            return os.stat(p).st_mtime_ns // 1_000_000_000 - BASE if self.kind == "flat" else 0
 
-        with open(self.ebuild_path()) as f:
-            text = f.read()
-        m = re.search(r'DESCRIPTION="eb_(\d+)_(\w+)"', text)
-        eb = dict(cid=int(m.group(1)), inh="" if m.group(2) == "none" else m.group(2), mt=mt(self.ebuild_path()))
+        ebs = {}
+        for p in PKGS:
+            path = self.ebuild_path(p)
+            if not os.path.exists(path):
+                ebs[p] = dict(NOPKG)
+                continue
+            with open(path) as f:
+                m = re.search(r'DESCRIPTION="eb_(\d+)_(\w+)"', f.read())
+            ebs[p] = dict(cid=int(m.group(1)), inh="" if m.group(2) == "none" else m.group(2), mt=mt(path))
         ecl = {}
         for r in ("m", "o"):
             ecl[r] = {}
@@ -182,7 +213,7 @@ class Rig:
                     ecl[r][n] = dict(cid=int(m.group(2)), nest=m.group(3) == "n", mt=mt(p))
                 else:
                     ecl[r][n] = dict(cid=0, nest=False, mt=0)
-        return dict(eb=eb, ecl=ecl)
+        return dict(ebs=ebs, ecl=ecl)
 
     def chf_of(self, token):
         """recorded checksum text -> spec vocabulary"""
@@ -190,11 +221,10 @@ class Rig:
             return dict(c=self.md5.get(token, UNKNOWN), t=0)
         return dict(c=NOCONTENT, t=int(token) - BASE)
 
-    def entry(self):
-        absent = dict(present=False, chf=dict(c=NOCONTENT, t=0), ecl=[], hasInherit=False, data=dict(eb=NOCONTENT, ecl=[]))
-        p = self.cache_path()
+    def entry(self, pkg="p1"):
+        p = self.cache_path(pkg)
         if not os.path.exists(p):
-            return absent
+            return ABSENT_ENTRY
         d = {}
         with open(p) as f:
             for line in f:
@@ -216,6 +246,9 @@ class Rig:
         en["data"] = project_data(d.get("DESCRIPTION", ""), d.get("IUSE", ""))
         return en
 
+    def entries(self):
+        return {p: self.entry(p) for p in PKGS}
+
 
 def project_data(description, iuse):
     m = re.fullmatch(r"eb_(\d+)_(\w+)", description.strip())
@@ -230,12 +263,25 @@ def project_data(description, iuse):
     return dict(eb=eb, ecl=ecl)
 
 
-def A(ev, r="-", n="-", cid=0, nest=False, inh="", r2="-"):
-    return dict(ev=ev, r=r, n=n, cid=cid, nest=nest, inh=inh, r2=r2)
+def A(ev, pkg="-", r="-", n="-", cid=0, nest=False, inh="", r2="-"):
+    return dict(ev=ev, pkg=pkg, r=r, n=n, cid=cid, nest=nest, inh=inh, r2=r2)
+
+
+def norm_action(a):
+    """actions of old replay files have no pkg field: they mean package p1"""
+    b = dict(a)
+    if b.get("pkg", "") in ("", None) or "pkg" not in b:
+        b["pkg"] = "p1" if b["ev"] in ("Read", "EditEbuild", "TouchEbuild", "StripInherit") else "-"
+    return b
+
+
+def view(w, p):
+    return dict(eb=w["ebs"][p], ecl=w["ecl"])
 
 
 def run_history(kind, calls, tid, w0, hist, events, gen=None):
-    """Execute a given action list (spec -> code) or let gen(rig, world, entry) pick actions (code -> spec)."""
+    """Execute a given action list (spec -> code) or let gen(rig, step) pick actions (code -> spec).
+    Returns the actions done; every event carries the index k of its action (history[:k+1] reproduces it)."""
     rig = Rig(kind, calls)
     try:
         rig.setup(w0)
@@ -243,25 +289,34 @@ def run_history(kind, calls, tid, w0, hist, events, gen=None):
         i = 0
         while True:
             if gen is None:
-                if i >= len(hist):
+                if len(done) >= len(hist):
                     break
-                a = hist[i]
+                a = norm_action(hist[len(done)])
             else:
-                a = gen(rig, i)
+                a = gen(rig, len(done))
                 if a is None:
                     break
             if a["ev"] == "StripInherit":
-                cur = rig.entry()
+                cur = rig.entry(a["pkg"])
                 if not (cur["present"] and cur["hasInherit"]):
                     break  # premise of the planned step does not hold on the real cache: the earlier steps carry the verdict
-            out = rig.apply(a)
-            i += 1
-            ev = dict(tid=tid, i=i, ev=a["ev"], kind=kind, w=rig.world(), regen=False, failed=False, err="",
-                      result=dict(eb=NOCONTENT, ecl=[]), en=rig.entry())
-            if out:
-                ev.update(out)
-            events.append(ev)
+            k = len(done)
             done.append(a)
+            if a["ev"] == "Read":
+                order = [p for p in ORDERS[a["pkg"]] if p in rig.pkgs()]
+                if not order:
+                    raise tlc.MachineryError(f"read session names no existing package: {a}")
+                for p, out in rig.session(order):
+                    i += 1
+                    ev = dict(tid=tid, i=i, k=k, ev="Read", pkg=p, kind=kind, w=view(rig.world(), p), ens=rig.entries())
+                    ev.update(out)
+                    events.append(ev)
+            else:
+                rig.apply(a)
+                i += 1
+                w = rig.world()
+                events.append(dict(tid=tid, i=i, k=k, ev=a["ev"], pkg=a["pkg"], kind=kind, w=view(w, "p1"), regen=False, failed=False,
+                                   err="", result=dict(eb=NOCONTENT, ecl=[]), ens=rig.entries()))
         return done
     finally:
         shutil.rmtree(rig.root, ignore_errors=True)
@@ -273,22 +328,31 @@ def random_world(r_):
             return dict(cid=0, nest=False, mt=0)
         return dict(cid=r_.randint(1, 3), nest=(n == "a" and r_.random() < 0.5), mt=0)
 
-    return dict(eb=dict(cid=1, inh=r_.choice(["a", "b", "ab", "ab", "a", ""]), mt=0),
+    def eb():
+        return dict(cid=r_.randint(1, 2), inh=r_.choice(["a", "b", "ab", "ab", "a", ""]), mt=0)
+
+    return dict(ebs={"p1": eb(), "p2": eb() if r_.random() < 0.6 else dict(NOPKG)},
                 ecl={r: {n: f(n) for n in ("a", "b")} for r in ("m", "o")})
 
 
 def random_gen(r_, steps):
-    """Random histories; edits are biased towards the files the ebuild / the cache entry depend on."""
+    """Random histories; edits are biased towards the files the ebuilds / the cache entries depend on; a read
+    session serves one package or all of them, in a random order, through the same objects."""
 
     def gen(rig, i):
         if i >= steps:
             return None
         w = rig.world()
-        en = rig.entry()
+        ens = rig.entries()
+        pkgs = rig.pkgs()
         if i == 0 or r_.random() < 0.45:
-            return A("Read")
+            if len(pkgs) == 2:
+                return A("Read", pkg=r_.choice(["p1p2", "p2p1", "p1p2", "p2p1", "p1", "p2"]))
+            return A("Read", pkg=pkgs[0])
         acts = []  # (weight, action)
-        relevant = set(INH[w["eb"]["inh"]]) | {x["name"] for x in en["ecl"] if x["name"] in ("a", "b")}
+        relevant = set()
+        for p in pkgs:
+            relevant |= set(INH[w["ebs"][p]["inh"]]) | {x["name"] for x in ens[p]["ecl"] if x["name"] in ("a", "b")}
         for n in ("a", "b"):
             k = 3 if n in relevant else 1
             res = "o" if w["ecl"]["o"][n]["cid"] else ("m" if w["ecl"]["m"][n]["cid"] else None)
@@ -304,27 +368,27 @@ def random_gen(r_, steps):
                     r2 = "o" if r == "m" else "m"
                     if not w["ecl"][r2][n]["cid"]:
                         acts.append((hot, A("MoveEclass", r=r, n=n, r2=r2)))
-        for _ in range(2):
+        for p in pkgs:
             c, inh = r_.randint(1, 3), r_.choice(list(INH))
-            if (c, inh) != (w["eb"]["cid"], w["eb"]["inh"]):
-                acts.append((2, A("EditEbuild", cid=c, inh=inh)))
-        acts.append((1, A("TouchEbuild")))
-        if en["present"] and en["hasInherit"]:
-            acts.append((2, A("StripInherit")))
+            if (c, inh) != (w["ebs"][p]["cid"], w["ebs"][p]["inh"]):
+                acts.append((2, A("EditEbuild", pkg=p, cid=c, inh=inh)))
+            acts.append((1, A("TouchEbuild", pkg=p)))
+            if ens[p]["present"] and ens[p]["hasInherit"]:
+                acts.append((2, A("StripInherit", pkg=p)))
         return r_.choices([a for _w, a in acts], weights=[w_ for w_, _a in acts])[0]
 
     return gen
 
 
-def mc_cfg(kind, maxcid, initcid, steps, check_ecl=True, check_dir=True, only=None, inh='"", "a", "b", "ab"'):
+def mc_cfg(kind, maxcid, initcid, steps, check_ecl=True, check_dir=True, only=None, inh='"", "a", "b", "ab"', pkgs='"p1"'):
     invs = only or ["Coherent", "ReadFresh", "ReadFailsOnlyWhenBroken", "EntryValidAfterRead", "NoEntryAfterFailure"]
-    return ("SPECIFICATION Spec\nCONSTANTS\n  Kinds = {\"%s\"}\n  MaxCid = %d\n  InitCid = %d\n  InitInh = {%s}\n  MaxSteps = %d\n  CheckEclasses = %s\n"
-            "  CheckDir = %s\n%s%s" % (kind, maxcid, initcid, inh, steps, "TRUE" if check_ecl else "FALSE", "TRUE" if check_dir else "FALSE",
+    return ("SPECIFICATION Spec\nCONSTANTS\n  Kinds = {\"%s\"}\n  Pkgs = {%s}\n  MaxCid = %d\n  InitCid = %d\n  InitInh = {%s}\n  MaxSteps = %d\n  CheckEclasses = %s\n"
+            "  CheckDir = %s\n%s%s" % (kind, pkgs, maxcid, initcid, inh, steps, "TRUE" if check_ecl else "FALSE", "TRUE" if check_dir else "FALSE",
                                       "".join(f"INVARIANT {x}\n" for x in invs), "" if only else "PROPERTY ReadsAllowed\n"))
 
 
 def sim_cfg(maxcid, initcid, d):
-    return ("SPECIFICATION SimSpec\nCONSTANTS\n  Kinds = {\"md5\", \"flat\"}\n  MaxCid = %d\n  InitCid = %d\n  InitInh = {\"a\", \"b\", \"ab\"}\n  MaxSteps = 99\n"
+    return ("SPECIFICATION SimSpec\nCONSTANTS\n  Kinds = {\"md5\", \"flat\"}\n  Pkgs = {\"p1\", \"p2\"}\n  MaxCid = %d\n  InitCid = %d\n  InitInh = {\"a\", \"b\", \"ab\"}\n  MaxSteps = 99\n"
             "  CheckEclasses = TRUE\n  CheckDir = TRUE\n  D = %d\nINVARIANT Emit\n" % (maxcid, initcid, d))
 
 
@@ -340,10 +404,13 @@ def judge(ck, events, meta, label):
         if v["clause"] == "OutsideDomain":
             raise tlc.MachineryError(f"driver edit disturbed the cache entry: {e}")
         prev = by.get((e["tid"], e["i"] - 1))
-        ck.violation(v["clause"], dict(kind=e["kind"], origin=m["origin"], w0=m["w0"], history=m["hist"][: e["i"]],
-                                       last_edit=(m["hist"][e["i"] - 2]["ev"] if e["i"] >= 2 else "-"),
-                                       world=e["w"], entry_before=(prev["en"] if prev else None), regen=e["regen"],
-                                       failed=e["failed"], error=e.get("err", ""), result=e["result"], entry_after=e["en"]))
+        hist = m["hist"][: e["k"] + 1]
+        edits = [a["ev"] for a in hist if a["ev"] != "Read"]
+        ck.violation(v["clause"], dict(kind=e["kind"], origin=m["origin"], pkg=e["pkg"], w0=m["w0"], history=hist,
+                                       last_edit=(edits[-1] if edits else "-"), session=hist[-1]["pkg"] if hist[-1]["ev"] == "Read" else "-",
+                                       world=e["w"], entry_before=(prev["ens"][e["pkg"]] if prev and e["pkg"] in prev["ens"] else None),
+                                       regen=e["regen"], failed=e["failed"], error=e.get("err", ""), result=e["result"],
+                                       entry_after=e["ens"].get(e["pkg"])))
 
 
 def run(ck):
@@ -351,12 +418,13 @@ def run(ck):
     from pkgcore.ebuild import processor
 
     ck.rule = ("histories of edits (ebuild/eclass content, touch, eclass removal, eclass moved between the stacked repositories, "
-               "cache entry stripped of INHERIT) and metadata reads on real stacked repositories with md5-cache and flat_hash "
+               "cache entry stripped of INHERIT) and read sessions (one or two packages sharing eclasses, either order, same "
+               "repository/eclass-cache objects) on real stacked repositories with md5-cache and flat_hash "
                "caches; chosen by TLC simulation of CacheValidity_Sim and by a seeded random generator; non-trivial = distinct "
                "(kind, initial world, history) containing at least one Read after an edit")
     ck.assumptions = [
-        "every Read is a fresh pkgcore session (new repository, eclass_cache and cache objects)",
-        "mtime caches: every edit stamps a fresh whole-second mtime (an edit that keeps the mtime is invisible to them by design)",
+        "every Read is a fresh pkgcore session (new repository, eclass_cache and cache objects) serving all packages it names",
+        "mtime caches: every edit stamps an mtime in a fresh whole second, with a sub-second part (an edit within the same second is invisible to them by design)",
         "an entry with eclasses but without INHERIT may be used or regenerated (carve-out); its result is judged either way",
     ]
     calls = []
@@ -379,8 +447,8 @@ def _run(ck, calls):
     if ck.replay_case:
         d = ck.replay_case["detail"]
         events = []
-        run_history(d["kind"], calls, 0, d["w0"], d["history"], events)
-        judge(ck, events, {0: dict(origin="replay", w0=d["w0"], hist=d["history"])}, "Trace:replay")
+        done = run_history(d["kind"], calls, 0, d["w0"], d["history"], events)
+        judge(ck, events, {0: dict(origin="replay", w0=d["w0"], hist=done)}, "Trace:replay")
         ck.count()
         ck.sample(d["history"])
         ck.nontriv("replay")
@@ -393,6 +461,8 @@ def _run(ck, calls):
     else:
         ck.mc("CacheValidity_MC", cfg_text=mc_cfg("md5", 2, 2, 4), workers=8, timeout=2400, heap="6g", label="MC:CacheValidity_MC md5 steps<=4")
         ck.mc("CacheValidity_MC", cfg_text=mc_cfg("flat", 2, 1, 3), workers=8, timeout=2400, heap="6g", label="MC:CacheValidity_MC flat steps<=3")
+        ck.mc("CacheValidity_MC", cfg_text=mc_cfg("md5", 2, 1, 3, inh='"a", "ab"', pkgs='"p1", "p2"'), workers=8, timeout=2400, heap="6g",
+              label="MC:CacheValidity_MC md5 two packages sharing the eclasses, steps<=3")
         for kind, kw, lab in (("md5", dict(check_ecl=False), "ebuild checksum only"), ("flat", dict(check_dir=False), "flat ignoring eclass dir")):
             res = ck.mc("CacheValidity_MC", cfg_text=mc_cfg(kind, 2, 2, 3, only=["ReadFresh"], **kw), workers=4, timeout=900,
                         label=f"MC:CacheValidity_MC vacuity guard ({lab}, must fail)", expect_ok=False)
@@ -406,9 +476,10 @@ def _run(ck, calls):
     budget_scen, budget_sim, budget_rand = ck.pick(16, 120) * scale, ck.pick(5, 280) * scale, ck.pick(5, 200) * scale
     scen = ck.export("CacheValidity_Scenarios", label="Export:CacheValidity_Scenarios", timeout=300)
     # cheap, most telling scenarios first; the ones whose regeneration fails (the daemon dies and is respawned) last
-    first = ["eclass-edited", "indirect-edited", "ebuild-edited", "removed-fallback", "moved-to-overlay", "shadowed",
-             "strip-inherit", "hit", "nest-added", "ebuild-touched", "eclass-touched"]
-    last = ["removed-for-good", "indirect-removed", "broken-from-start", "ebuild-drops-inherit"]
+    first = ["hit", "shared-eclass-fresh-entry-first", "eclass-edited", "shared-eclass-stale-entry-first", "indirect-edited",
+             "ebuild-edited", "removed-fallback", "shared-indirect-eclass", "moved-to-overlay", "shadowed", "strip-inherit",
+             "two-packages-one-ebuild-edited", "shared-eclass-moved", "nest-added", "ebuild-touched", "eclass-touched"]
+    last = ["removed-for-good", "indirect-removed", "broken-from-start", "ebuild-drops-inherit", "shared-eclass-removed"]
     scen.sort(key=lambda c: (first.index(c["name"]) if c["name"] in first else len(first) + (1 + last.index(c["name"]) if c["name"] in last else 0),
                              c["name"], c["kind"]))
     t_phase = time.time()
@@ -446,8 +517,9 @@ def _run(ck, calls):
             ck.nontriv((kind, repr(w0), repr(done)))
         tid += 1
     if events:
-        ck.sample(dict(direction="spec->code", kind=events[0]["kind"], w0=meta[0]["w0"], history=[a["ev"] for a in meta[0]["hist"]],
-                       regen=[e["regen"] for e in events if e["tid"] == 0 and e["ev"] == "Read"]))
+        ck.sample(dict(direction="spec->code", kind=events[0]["kind"], origin=meta[0]["origin"], w0=meta[0]["w0"],
+                       history=[a["ev"] + (":" + a["pkg"] if a["pkg"] != "-" else "") for a in meta[0]["hist"]],
+                       reads=[[e["pkg"], "regenerated" if e["regen"] else "cached"] for e in events if e["tid"] == 0 and e["ev"] == "Read"]))
     # ---- 3. code -> spec: random histories
     r_ = rng(48)
     nrand = ck.pick(4, 110)
@@ -466,10 +538,12 @@ def _run(ck, calls):
             ck.nontriv((kind, repr(w0), repr(done)))
         tid += 1
     if tid > first_random:
-        ck.sample(dict(direction="code->spec", kind="md5", w0=meta[first_random]["w0"], history=[a["ev"] for a in meta[first_random]["hist"]]))
+        ck.sample(dict(direction="code->spec", kind="md5", w0=meta[first_random]["w0"],
+                       history=[a["ev"] + (":" + a["pkg"] if a["pkg"] != "-" else "") for a in meta[first_random]["hist"]]))
     if skipped:
         ck.extra["histories_skipped_time_budget"] = skipped
     ck.extra["reads"] = sum(1 for e in events if e["ev"] == "Read")
+    ck.extra["two_package_sessions"] = sum(1 for m in meta.values() for a in m["hist"] if a["ev"] == "Read" and len(a["pkg"]) > 2)
     ck.extra["regenerations"] = sum(1 for e in events if e["regen"])
     judge(ck, events, meta, "Trace:CacheValidity_Trace")
 
